@@ -279,6 +279,10 @@ pub fn gen_config(rng: &mut Rng, dom: &Dom) -> Config {
     };
     if dom.wild && rng.chance(0.03) {
         widen(rng, &mut cfg);
+        if rng.chance(0.3) {
+            // two dimensions at once
+            widen(rng, &mut cfg);
+        }
     }
     sanitize(&mut cfg);
     cfg
@@ -394,7 +398,7 @@ pub fn widen(rng: &mut Rng, cfg: &mut Config) {
             // tiny ratios / huge ratios at the edge of the constructor's domain
             if cfg.kind.is_async() {
                 cfg.ratio = if rng.chance(0.5) { rng.log_uniform(1.0 / 512.0, 1.0 / 16.0) } else { rng.log_uniform(16.0, 256.0) };
-                cfg.chunk = cfg.chunk.min(64);
+                // (the sanitizer keeps the buffers affordable: chunk / ratio can still reach millions of frames)
                 cfg.max_rel = cfg.max_rel.min(2.0);
                 cfg.sinc_len = cfg.sinc_len.min(32);
             }
